@@ -194,6 +194,33 @@ def accepted_counter_cut(p, ga, T=None):
     return flow.cut_by_edges(ga, 0, oks, list(upd_ok) + list(no_counter)), upd_ok, no_counter
 
 
+def lookup_rejects_empty_labels(p, body):
+    """the given public lookup entry reaches ListProvider::public_suffix only when the whole input has no empty label;
+    -> (holds, body view, call block, witness)"""
+    from . import flow, names, normal, summary, inline
+    et = inline.inlined(p, body)
+    T = flow.Terms(p, et)
+    calls = names.calls_to(et, "ListProvider::public_suffix")
+    if len(calls) != 1:
+        return False, et, None, "expected one public_suffix call"
+    cb = calls[0][0]
+    N = normal.Normalizer(p, summary.Summaries(p))
+    conds = normal.conditions(N, p, et, cb, T) or []
+    pats = set()
+    split_form = False
+    for sb, labs, t in conds:
+        a, pol = flow.bool_atom(t, labs)
+        if isinstance(a, tuple) and len(a) == 4 and a[0] == "call" and pol is False and a[2] and a[2][0] == ("param", 2):
+            for x in a[2][1:]:
+                if x and x[0] == "const":
+                    pats.add((a[1].rsplit("::", 1)[-1], x[1]))
+        if isinstance(a, tuple) and len(a) == 4 and a[0] == "call" and pol is False and names.is_(a[1], "Iterator::any") and flow.term_contains(a, lambda y: isinstance(y, tuple) and len(y) == 4 and y[0] == "call" and y[1].endswith("::split") and y[2][0] == ("param", 2) and y[2][1] == ("const", 46)):
+            split_form = True
+    need = {("starts_with", 46), ("ends_with", 46), ("contains", "..")}
+    ok = need <= pats or split_form
+    return ok, et, cb, "the lookup is conditioned on the whole input passing %s" % (sorted(map(str, pats)) if not split_form else "split('.').any(empty) == false")
+
+
 def etld_rejects_empty_labels(p):
     """ListProvider::effective_tld_plus_one: the table lookup is only reached when the *whole* input has no empty label.
     Accepted forms of the test (on the function's own domain parameter): the three string tests starts_with('.'),
